@@ -46,6 +46,8 @@ def _errors(stderr):
 
 
 def run_positive(ctx, prog, res, rid, clause, group):
+    if getattr(ctx, "skip_witness", False):
+        return True
     r = res.rule(rid, clause)
     with open(os.path.join(lib.CACHE, "lock-witness"), "w") as lk:
         fcntl.flock(lk, fcntl.LOCK_EX)
@@ -77,6 +79,8 @@ def run_positive(ctx, prog, res, rid, clause, group):
 def run_doctests(ctx, prog, res, rid, clause, group, floor):
     """compile_fail witnesses + twins of one group: every doctest must 'pass' (i.e. the
     compile_fail ones fail to compile with the stated error code, the twins compile)."""
+    if getattr(ctx, "skip_witness", False):
+        return
     r = res.rule(rid, clause)
     with open(os.path.join(lib.CACHE, "lock-witness"), "w") as lk:
         fcntl.flock(lk, fcntl.LOCK_EX)
